@@ -49,6 +49,8 @@ type Harness struct {
 	Expect      string // "" | "violation:<label>" (self-test twins)
 	Doc         string
 	Params      map[string]int // per-tier overrides from directives
+	StubGroups  map[string]bool
+	Init        map[string]bool
 }
 
 type Engine struct {
@@ -57,6 +59,7 @@ type Engine struct {
 	Pkg              *ssa.Package // atree
 	Harnesses        []*Harness
 	redirect         map[*ssa.Function]*ssa.Function
+	redirectGroup    map[*ssa.Function]string
 	RedirectNames    map[string]string
 	runtimeErrorType types.Type
 	sched            *sched
@@ -170,7 +173,7 @@ func Load(opt Options) (*Engine, error) {
 	}
 	prog, spkgs := ssautil.AllPackages(pkgs, ssa.InstantiateGenerics)
 	prog.Build()
-	e := &Engine{Opt: opt, Prog: prog, Pkg: spkgs[0], redirect: map[*ssa.Function]*ssa.Function{}, RedirectNames: map[string]string{},
+	e := &Engine{Opt: opt, Prog: prog, Pkg: spkgs[0], redirect: map[*ssa.Function]*ssa.Function{}, redirectGroup: map[*ssa.Function]string{}, RedirectNames: map[string]string{},
 		results: map[string]*HarnessResult{}}
 	for _, f := range pkgs[0].GoFiles {
 		e.SrcFiles = append(e.SrcFiles, f)
@@ -205,12 +208,20 @@ func Load(opt Options) (*Engine, error) {
 		}
 		dirs := directiveRe.FindAllStringSubmatch(doc, -1)
 		if strings.HasPrefix(name, "VH_") {
-			h := &Harness{Name: name, Fn: fn, Doc: doc, Params: map[string]int{}}
+			h := &Harness{Name: name, Fn: fn, Doc: doc, Params: map[string]int{}, StubGroups: map[string]bool{}, Init: map[string]bool{}}
 			for _, d := range dirs {
 				arg := strings.TrimSpace(d[2])
 				switch d[1] {
 				case "prop":
 					h.Props = append(h.Props, strings.Fields(arg)...)
+				case "init":
+					for _, g := range strings.Fields(arg) {
+						h.Init[g] = true
+					}
+				case "stubs":
+					for _, g := range strings.Fields(arg) {
+						h.StubGroups[g] = true
+					}
 				case "tier":
 					h.Tier = arg
 				case "maporder":
@@ -242,12 +253,17 @@ func Load(opt Options) (*Engine, error) {
 		}
 		for _, d := range dirs {
 			if d[1] == "stub" {
-				target := strings.TrimSpace(d[2])
+				f := strings.Fields(d[2])
+				if len(f) != 2 {
+					return nil, fmt.Errorf("HARNESS-BUILD-FAILED: stub %s: directive must be '//vh:stub <target> <group>'", name)
+				}
+				target, group := f[0], f[1]
 				tf, ok := byName[target]
 				if !ok {
 					return nil, fmt.Errorf("HARNESS-BUILD-FAILED: stub %s: target function %q not found", name, target)
 				}
 				e.redirect[tf] = fn
+				e.redirectGroup[tf] = group
 				e.RedirectNames[target] = name
 			}
 		}
